@@ -35,7 +35,7 @@ META = {
              "outputs, with the 'no start' / 'out of sequence' warnings exactly where the reference drops.  In addition an INDUCTIVE STEP "
              "(checks/induct12.py): the body of the packet loop, lifted from the function's AST, is run from an arbitrary segment table (up to 3 stored "
              "segments for each of 2 APIDs) with an arbitrary incoming packet, and z3 proves outputs, warnings and the NEW TABLE equal the reference "
-             "transition - which extends the result to histories of any length.  A two-sources job feeds the SAME definition two streams one after the other (cut at every packet boundary) and proves that an open group of the first never leaks into the second.",
+             "transition - which extends the result to histories of any length.  A record-prefix job runs the same histories with skip_header_bytes=3 (arbitrary prefix bytes before every packet).  A two-sources job feeds the SAME definition two streams one after the other (cut at every packet boundary) and proves that an open group of the first never leaks into the second.",
     "trusted": "z3; BV proxies; dict lookup by a symbolic APID = pick of a feasible value; cross-validated on every path against the unpatched "
                "generator; the reference state machine (Appendix A of DESIGN.md) is my reading of the property",
     "bounds": {"quick": {"K": 4, "APIDs": 2, "secondary_header_bytes": "0..7 (longer than the shorter data fields)", "data bytes per packet": "3..6"},
